@@ -17,7 +17,7 @@ struct Cfg
     unsigned rate_pm;       // poison rate per mille; 0 = exactly the points whose hash % 4096 == 7
     int kind;               // 0 NaN, 1 +inf, 2 -inf, 3 mixed
     int source;             // 0 integrand return, 1 projector.add value, 2 weight (map)
-    int map_mode;           // source 2: 0 jacobian NaN, 1 jacobian inf, 2 total density zero
+    int map_mode;           // source 2: 0 jacobian NaN, 1 jacobian inf, 2 total density zero, 3 density of the disabled channels non-finite
     bool has_dist, two_d;
     unsigned zero_pm;
     bool twin;
@@ -70,6 +70,17 @@ struct PoisonMap
         hep::multi_channel_map action) const
     {
         T j = inner(channel, rn, co, enabled, dens, action);
+        if (c.source == 2 && c.map_mode == 3 && action == hep::multi_channel_map::calculate_densities)
+        {
+            // a map that populates all densities, also those of the disabled channels; at the poisoned points these are NaN / infinite
+            // (a formula undefined outside the channel's support): 0 * non-finite makes the total density, hence the weight, NaN
+            std::uint64_t h = point_hash(rn, c.salt);
+            bool poison = is_poison(c, h);
+            if (poison && enabled.size() == dens.size()) return std::numeric_limits<T>::quiet_NaN();
+            for (std::size_t ch = 0; ch < dens.size(); ++ch)
+                if (std::find(enabled.begin(), enabled.end(), ch) == enabled.end()) dens[ch] = poison ? nonfinite(c, h) : T(1);
+            return j;
+        }
         if (c.source == 2 && action == hep::multi_channel_map::calculate_densities && is_poison(c, point_hash(rn, c.salt)))
         {
             if (c.map_mode == 0) return std::numeric_limits<T>::quiet_NaN();
@@ -211,7 +222,7 @@ void run_case(Rng& rng, std::uint64_t idx)
     c.two_d = rng.below(2);
     c.source = integ == 2 ? rng.below(3) : rng.below(2);
     if (c.source == 1 && !c.has_dist) c.source = 0;
-    c.map_mode = rng.below(3);
+    c.map_mode = rng.below(4);
     c.zero_pm = rng.below(2) ? 0 : 200;
     c.twin = false;
     std::size_t dims = rng.range(1, 3), iters = rng.range(3, 6);
